@@ -176,11 +176,35 @@ initSetIteration(SetIteration *i, PyObject *s, int useValues)
         /* Error detection on types is moved to the next() call. */
         /* This is slower, but very convenient.  */
         PyObject* list = PySequence_List(s);
+#ifdef KEY_TYPE_IS_PYOBJECT
+        int has_none = 0;
+        Py_ssize_t idx;
+#endif
         UNLESS(list) return -1;
+#ifdef KEY_TYPE_IS_PYOBJECT
+        /* None is a legal key (the smallest one), but list.sort() cannot
+           order it relative to other objects:  take it out, sort the
+           rest, and put it back in front. */
+        for (idx = PyList_GET_SIZE(list); --idx >= 0; ) {
+            if (PyList_GET_ITEM(list, idx) == Py_None) {
+                has_none = 1;
+                if (PyList_SetSlice(list, idx, idx + 1, NULL) < 0) {
+                    Py_DECREF(list);
+                    return -1;
+                }
+            }
+        }
+#endif
         if (PyList_Sort(list) == -1) {
             Py_DECREF(list);
             return -1;
         }
+#ifdef KEY_TYPE_IS_PYOBJECT
+        if (has_none && PyList_Insert(list, 0, Py_None) < 0) {
+            Py_DECREF(list);
+            return -1;
+        }
+#endif
         /* The merge algorithms need strictly increasing keys, like the
            BTrees types deliver them:  drop duplicates from the sorted
            list. */
